@@ -76,7 +76,7 @@ def gen_value(T, name, rng, depth, McpBase, variant=0):
         if depth > 3:
             return []
         inner = args[0] if args else typing.Any
-        n = [0, 1, 2][variant % 3]
+        n = [1, 2, 0][variant % 3]            # a list with something in it first
         return [gen_value(inner, name, rng, depth + 1, McpBase, variant + i) for i in range(n)]
     if origin in (dict, typing.Dict):
         vt = args[1] if len(args) > 1 else typing.Any
@@ -87,6 +87,8 @@ def gen_value(T, name, rng, depth, McpBase, variant=0):
         return [gen_value(a, name, rng, depth + 1, McpBase, variant) for a in args if a is not Ellipsis]
     if inspect.isclass(T):
         if issubclass(T, McpBase):
+            if variant % 3 == 2 and not any(f[2] for f in field_info(T)):
+                return {}                     # present and empty: every member of this object is optional
             return gen_model(T, rng, depth + 1, McpBase, variant)
         if T is str:
             base = NAME_VALUES.get(name, "s-" + name)
@@ -134,6 +136,49 @@ def gen_model(cls, rng, depth, McpBase, variant=0, optional_mask=None, extras=Tr
         if "_meta" not in wires and "meta" not in wires:
             out["_meta"] = {"x-unknown": 1}
     return out
+
+
+def declared_defaults(cls, McpBase):
+    """wire name -> what the class itself adds for an absent member (dumped), for both back ends"""
+    out = {}
+    pyd = hasattr(cls, "model_fields") and not hasattr(cls, "__model_fields__")
+    for attr, wire, req, _T in field_info(cls):
+        if req:
+            continue
+        try:
+            if pyd:
+                d = cls.model_fields[attr].get_default(call_default_factory=True)
+            else:
+                f = cls.__model_fields__[attr]
+                d = f.default_factory() if getattr(f, "default_factory", None) is not None else getattr(f, "default", None)
+                if d is ...:
+                    d = None
+        except Exception:
+            continue
+        if isinstance(d, McpBase):
+            d = d.model_dump(by_alias=True, exclude_none=True)
+        out[wire] = d
+    return out
+
+
+def added_ok_deep(o, w, McpBase):
+    """every member a typed view adds to its wire object - at any depth - is that class's declared default"""
+    if isinstance(o, McpBase) and isinstance(w, dict):
+        d = o.model_dump(by_alias=True, exclude_none=True)
+        dd = declared_defaults(type(o), McpBase)
+        for k in d:
+            if k not in w:
+                if k not in dd or tag(dd[k]) != tag(d[k]):
+                    return False
+        for attr, wire, _req, _T in field_info(type(o)):
+            if wire in w and not added_ok_deep(getattr(o, attr, None), w[wire], McpBase):
+                return False
+        return True
+    if isinstance(o, list) and isinstance(w, list):
+        return all(added_ok_deep(a, b, McpBase) for a, b in zip(o, w))
+    if isinstance(o, dict) and isinstance(w, dict):
+        return all(added_ok_deep(o[k], w[k], McpBase) for k in w if k in o)
+    return True
 
 
 def scramble(obj, McpBase, seen=None):
@@ -230,6 +275,12 @@ def main():
                 d = o.model_dump(by_alias=True, exclude_none=True)
                 r.update(ok=True, exc="", typed=typed_tree(o, McpBase), dump=tag(d))
                 try:
+                    if not added_ok_deep(o, w, McpBase):
+                        r["stable"] = False
+                        r["exc"] = "adds a member that is not the class's declared default"
+                except Exception as e:
+                    r["exc"] = "added_ok_deep: %s" % type(e).__name__
+                try:
                     # wire names alone (absent optional members then appear as nulls)
                     r["dump_alias_only"] = tag(o.model_dump(by_alias=True))
                 except Exception as e:
@@ -248,7 +299,7 @@ def main():
                     continue
                 try:
                     o = c.model_validate(untag(case["wire"]))
-                    r["stable"] = tag(o.model_dump(by_alias=True, exclude_none=True)) == r["dump"]
+                    r["stable"] = r["stable"] and tag(o.model_dump(by_alias=True, exclude_none=True)) == r["dump"]
                 except Exception:
                     r["stable"] = False
         out["results"] = [slots[i] for i in range(len(req["cases"]))]
@@ -522,8 +573,11 @@ def transport_outputs(cases):
     def build(i):
         c = cases[i]
         idv, payload = untag(c["id"]), untag(c["payload"])
-        if i % 2 == 0:
+        if i % 4 == 0:
             return J.JSONRPCRequest(jsonrpc="2.0", id=idv, method="tools/call", params=payload)
+        if i % 4 == 2:
+            # built from the public class, the version member left to its default
+            return J.JSONRPCRequest(id=idv, method="tools/call", params=payload)
         d = {"jsonrpc": "2.0", "id": idv, "method": "tools/call"}
         if payload is not None:
             d["params"] = payload
